@@ -29,6 +29,26 @@ THEOREMS = {
             "JP.C01.engine_null_roundtrip", "JP.C01.engine_test_absent_is_null", "JP.C01.engine_copy_isolated",
             "JP.C01.novalue_refines", "JP.C01.spec_novalue",
         ],
+        "JP.Props.C01laws": [
+            "JP.C01.apply_nil", "JP.C01.apply_singleton", "JP.C01.applyFrom_append", "JP.C01.applyFrom_shift",
+            "JP.C01.apply_append", "JP.C01.apply_append_nolimit", "JP.C01.apply_append_ok", "JP.C01.apply_append_fail",
+            "JP.C01.apply_append_fail_left", "JP.C01.apply_append_unspec", "JP.C01.applyOp_container", "JP.C01.apply_ok_container",
+            "JP.C01.test_pure", "JP.C01.test_outcome", "JP.C01.first_failure", "JP.C01.test_unequal_fails_patch",
+            "JP.C01.test_unequal_fails_apply",
+            "JP.C01.add_dash_eq_add_len", "JP.C01.add_existing_member_eq_replace",
+            "JP.C01.add_existing_member_eq_replace_or_unspec", "JP.C01.add_existing_member_ensure_counterexample",
+            "JP.C01.copy_eq_add_get", "JP.C01.copy_over_limit", "JP.C01.move_eq_remove_add_seq",
+            "JP.C01.copy_eq_add_get_ensure_counterexample", "JP.C01.copy_to_root_counterexample",
+            "JP.C01.add_then_remove_member", "JP.C01.add_then_remove_gen", "JP.C01.add_then_remove_index",
+            "JP.C01.add_dash_then_remove_len", "JP.C01.add_then_remove_dash_counterexample",
+            "JP.C01.remove_then_add_array", "JP.C01.remove_then_add_member", "JP.C01.remove_then_add_member_order_counterexample",
+            "JP.C01.replace_eq_remove_add_array", "JP.C01.replace_eq_remove_add_array_of_exists", "JP.C01.replace_eqv_remove_add_member",
+            "JP.C01.replace_remove_add_order_counterexample", "JP.C01.replace_remove_add_dup_counterexample",
+            "JP.C01.replace_remove_add_cause_counterexample", "JP.C01.replace_remove_add_allowMissing_counterexample",
+            "JP.C01.neg_index_remove", "JP.C01.neg_index_replace", "JP.C01.neg_index_test", "JP.C01.neg_index_get",
+            "JP.C01.neg_index_add", "JP.C01.neg_off_fails", "JP.C01.neg_off_remove_allowMissing_counterexample",
+            "JP.C01.impl_applyOps_append", "JP.C01.impl_apply_append",
+        ],
     },
     "C02": {
         "JP.Props.C02bytes": [
@@ -319,6 +339,9 @@ THEOREMS = {
         "JP.Props.C18": [
             "JP.C18.applyOps_refines", "JP.C18.apply_refines", "JP.C18.applyBytes_refines",
             "JP.C18.decodeOp_nn", "JP.C18.applyBytes_refines_plain",
+        ],
+        "JP.Props.C18agree": [
+            "JP.C18.v5_legacy_agree_ops", "JP.C18.v5_legacy_agree", "JP.C18.v5_legacy_disagree_example",
         ],
     },
     "C19": {
